@@ -1,6 +1,6 @@
 (* C01 - every declared node becomes exactly one faithful row of the nodes table *)
 From Coq Require Import String Ascii List Bool Arith NArith ZArith.
-Require Import PyStr PyInt Sexp Xml M_C09 M_C08 Ns Table M_Parse T_Parse.
+Require Import PyStr PyInt Sexp Xml M_C09 M_C08 Ns Table M_Parse T_Parse M_Write T_ParseAttrs.
 Import ListNotations.
 Open Scope char_scope.
 
@@ -31,9 +31,41 @@ Proof. exact (T_Parse.C01_int_attr_faithful k z nsmap amap). Qed.
 Theorem C01_sampling_interval_wrap_refuted : cast_attr (lit "MinimumSamplingInterval") (lit "3000000000") [] [] = Ok (AInt (-1294967296)%Z).
 Proof. exact C01_sampling_interval_wrap_refuted. Qed.
 
+(* "the value of every XML attribute the element has ... attributes the element does not have are reported as missing (or false for
+   IsAbstract/Symmetric)": for EVERY attribute name a, the row's column a is the element's attribute typed by cast_attr - a node reference
+   (alias or NodeId text through the file's namespace map) for DataType/ParentNodeId/MethodDeclarationId, an integer for the integer
+   columns, a boolean for IsAbstract/Symmetric, the text otherwise; NodeId and BrowseName are their own columns; an absent attribute is
+   missing, or false for the two boolean columns when some node of the file has that column *)
+Theorem C01_attribute_columns : forall E nsmap amap cols e row refs, parse_node E nsmap amap cols e = Ok (row, refs) -> forall a,
+  match lookup_attr a (ne_attrs e) with
+  | Some v => if own_column a then node_attr a row = None
+              else exists x, cast_attr a v nsmap amap = Ok x /\ node_attr a row = Some x
+  | None => node_attr a row = if mem_str a BOOL_COLS && mem_str a cols then Some (ABool false) else None
+  end.
+Proof. exact attribute_columns. Qed.
+Theorem C01_file_attribute_columns : forall E ns d ns1 fo, parse_file E ns d = Ok (ns1, fo) ->
+  exists amap, (match d_aliases d with Some l => build_aliases l (zmap_of (snd (file_ns ns d))) | None => Ok [] end) = Ok amap /\
+    Forall2 (fun e row => row_matches E (zmap_of (snd (file_ns ns d))) amap e row /\
+                          attrs_match (zmap_of (snd (file_ns ns d))) amap (flat_map (fun e => map fst (ne_attrs e)) (d_nodes d)) e row)
+            (d_nodes d) (fo_nodes fo).
+Proof. exact file_attribute_columns. Qed.
+Theorem C01_node_reference_attribute : forall a v nsmap amap, mem_str a NODE_REF_ATTRS = true -> cast_attr a v nsmap amap = rmap ANode (parse_nodeid v nsmap amap).
+Proof. exact cast_ref. Qed.
+Theorem C01_boolean_attribute : forall k v nsmap amap, str_eqb k (lit "IsAbstract") || str_eqb k (lit "Symmetric") = true ->
+  cast_attr k v nsmap amap = Ok (ABool (negb (str_eqb v (lit "false") || str_eqb v []))).
+Proof. exact cast_attr_bool. Qed.
+Theorem C01_text_attribute : forall k v nsmap amap, mem_str k NODE_REF_ATTRS = false -> int_attr_cast k = None ->
+  str_eqb k (lit "IsAbstract") || str_eqb k (lit "Symmetric") = false -> cast_attr k v nsmap amap = Ok (AStr v).
+Proof. exact cast_attr_text. Qed.
+
 Print Assumptions C01_file_rows.
 Print Assumptions C01_row_count.
 Print Assumptions C01_first_text.
 Print Assumptions C01_browsename_second_colon_refuted.
 Print Assumptions C01_int_attr_faithful.
 Print Assumptions C01_sampling_interval_wrap_refuted.
+Print Assumptions C01_attribute_columns.
+Print Assumptions C01_file_attribute_columns.
+Print Assumptions C01_node_reference_attribute.
+Print Assumptions C01_boolean_attribute.
+Print Assumptions C01_text_attribute.
